@@ -8,5 +8,5 @@ CONSTANTS
   MaxOps = 4
   MaxIno = 6
   Allowed = {}
-  AsFound = {}
+  AsFound = {"DELGET", "OVERF"}
 INVARIANT OnlyAllowed
